@@ -76,6 +76,33 @@ def fw_random(rng, nmax, p_own=0.15, p_late=0.2, p_cb=0.12, acyclic=False, label
     return [0, heap]
 
 
+def fw_random_levels(rng, nmax, labels=LABELS):
+    """inside the hypothesis of roundtrip_framework_cycles_partial: named references only, no callbacks,
+    every node has a level; early edges go strictly down, late edges stay on the level or go down
+    (so every cycle consists of late edges)"""
+    n = rng.randint(2, nmax)
+    lev = [rng.randint(0, 2) for _ in range(n)]
+    lev[0] = max(lev)     # main on top (still need not reach everything)
+    heap = []
+    for i in range(n):
+        fs = []
+        for _ in range(rng.choice([1, 2, 2, 3, 4])):
+            r = rng.random()
+            if r < 0.1:
+                fs.append(["e", "lit", rng.randint(0, 9)])
+            elif r < 0.2:
+                fs.append([rng.choice("el"), "str", rng.choice(["a", "st__a", ""])])
+            elif r < 0.55:
+                lower = [j for j in range(n) if lev[j] < lev[i]]
+                if lower:
+                    fs.append(["e", "ref", rng.choice(lower)])
+            else:
+                same = [j for j in range(n) if lev[j] <= lev[i]]
+                fs.append(["l", "ref", rng.choice(same)])
+        heap.append([rng.randint(0, 3), rng.choice(labels), fs])
+    return [0, heap]
+
+
 class Fw(Family):
     name = "fw"
     exhaustive = False
@@ -99,8 +126,10 @@ class Fw(Family):
                     yield [0, [[1, "a", f0], [2, "a", f1]]]
         n = 12000 if tier == "quick" else 200000
         for i in range(n):
-            m = i % 4
-            if m == 0:   # inside the hypothesis of the proved theorem: acyclic, early, named references
+            m = i % 5
+            if m == 4:
+                yield fw_random_levels(rng, 7)
+            elif m == 0:   # inside the hypothesis of the proved theorem: acyclic, early, named references
                 yield fw_random(rng, 7, p_own=0.0, p_late=0.0, p_cb=0.0, acyclic=True)
             elif m == 1:  # acyclic with inlined objects and two-phase loaders
                 yield fw_random(rng, 7, acyclic=True)
@@ -993,7 +1022,7 @@ def pre_build():
 PROP = Property(
     id="C02",
     title="A saved session restores to an observationally equivalent session",
-    theorems=["C02.names_injective", "C02.disambiguate_total_fresh", "C02.string_prefix_safe", "C02.old_label_reads_as_literal", "C02.roundtrip_framework_partial", "C02.declared_ids_denote_declared_names", "C02.dispatch_matches_observed", "C02.table_offenders_nil", "C02.no_silent_fallthrough"],
+    theorems=["C02.names_injective", "C02.disambiguate_total_fresh", "C02.string_prefix_safe", "C02.old_label_reads_as_literal", "C02.roundtrip_framework_partial", "C02.roundtrip_framework_cycles_partial", "C02.declared_ids_denote_declared_names", "C02.dispatch_matches_observed", "C02.table_offenders_nil", "C02.no_silent_fallthrough"],
     families=[Fw(), Cls(), Sess(), SessFiles()],
     pre_build=pre_build,
     trusted_base=["JSON, base64, np.save/np.load, FITS/HDF5/CSV readers (astropy, h5py, pandas) are trusted codecs",
